@@ -3,10 +3,11 @@
 TIER="${1:-quick}"; shift
 IDS="${@:-C01 C02 C03 C04 C05 C06 C07 C08 C09 C10 C11 C12 C13 C14 C15 C16 C17 C18 C19}"
 cd "$(dirname "${BASH_SOURCE[0]}")/.."
+LOGD="$(mktemp -d /tmp/runall_XXXXXX)"
 for c in $IDS; do
   s=$(date +%s)
-  ./vfcheck $c $TIER > /tmp/runall_$c.log 2>&1; rc=$?
+  ./vfcheck $c $TIER > $LOGD/$c.log 2>&1; rc=$?
   e=$(date +%s)
-  echo "$c tier=$TIER rc=$rc wall=$((e-s))s violations=$(grep -c '^VIOLATION' /tmp/runall_$c.log) known=$(grep -c '^KNOWN-FINDING' /tmp/runall_$c.log)"
-  grep -E '^(VIOLATION|HARNESS-ERROR)' -A3 /tmp/runall_$c.log | head -20
+  echo "$c tier=$TIER rc=$rc wall=$((e-s))s violations=$(grep -c '^VIOLATION' $LOGD/$c.log) known=$(grep -c '^KNOWN-FINDING' $LOGD/$c.log)"
+  grep -E '^(VIOLATION|HARNESS-ERROR)' -A3 $LOGD/$c.log | head -20
 done
